@@ -146,7 +146,12 @@ where
         should_continue: impl std::ops::Fn() -> bool + Clone,
     ) -> V {
         debug!("solve_root_goal(canonical_goal={:?})", canonical_goal);
-        assert!(self.stack.is_empty());
+        // The stack and the search graph are empty after every root goal that
+        // ran to completion. They are not if an earlier call unwound through
+        // a panic (e.g. one raised by a database callback): start afresh then,
+        // what was completely solved before is in the cache.
+        self.stack.clear();
+        self.search_graph.clear();
         let minimums = &mut Minimums::new();
         self.solve_goal(canonical_goal, minimums, solver_stuff, should_continue)
     }
